@@ -542,7 +542,7 @@ namespace awkward {
     key(const RecordLookupPtr &recordlookup,
         int64_t fieldindex,
         int64_t numfields) {
-      if (fieldindex >= numfields) {
+      if (fieldindex < 0  ||  fieldindex >= numfields) {
         throw std::invalid_argument(
           std::string("fieldindex ") + std::to_string(fieldindex)
           + std::string(" for records with only ") + std::to_string(numfields)
